@@ -52,13 +52,32 @@ fn c09_is_valid_duration() {
     assert!(got == vk_valid(f));
 }
 
-/// NormalizeTimeDuration: for every valid time duration the result is the exact total in nanoseconds
+/// an integral double built as m * 2^e (m < 2^53, e <= emax): exact by construction, and its integer value is known
+/// without any float->int conversion on the oracle side
+fn vk_scaled(emax: u8) -> (FiniteF64, i128) {
+    let m: u64 = kani::any();
+    kani::assume(m < 9_007_199_254_740_992);
+    let e: u8 = kani::any();
+    kani::assume(e <= emax);
+    let neg: bool = kani::any();
+    let mag = (m as i128) << e;
+    let f = (m as f64) * ((1u64 << e) as f64);
+    if neg { (FiniteF64(-f), -mag) } else { (FiniteF64(f), mag) }
+}
+
+/// NormalizeTimeDuration: for every valid time duration the result is the exact total in nanoseconds.
+/// Fields range over all integral doubles m * 2^e with the exponent capped per field (hours < 2^53, ..., ns < 2^84):
+/// every valid duration whose fields have at most 53 significant bits is covered.
 #[kani::proof]
 fn c06_from_time_duration() {
-    let t = TimeDuration::new_unchecked(vk_f(), vk_f(), vk_f(), vk_f(), vk_f(), vk_f());
-    let (Some(h), Some(mi), Some(s), Some(ms), Some(us), Some(ns)) = (vk_int(t.hours, VK_P45), vk_int(t.minutes, VK_P50),
-        vk_int(t.seconds, VK_P54), vk_int(t.milliseconds, VK_P64), vk_int(t.microseconds, VK_P74), vk_int(t.nanoseconds, VK_P84)) else { return; };
-    let total = ((h * 60 + mi) * 60 + s) * 1_000_000_000 + ms * 1_000_000 + us * 1_000 + ns;
+    let (h, ih) = vk_scaled(0);
+    let (mi, imi) = vk_scaled(0);
+    let (s, is) = vk_scaled(1);
+    let (ms, ims) = vk_scaled(11);
+    let (us, ius) = vk_scaled(21);
+    let (ns, ins) = vk_scaled(31);
+    let t = TimeDuration::new_unchecked(h, mi, s, ms, us, ns);
+    let total = ((ih * 60 + imi) * 60 + is) * 1_000_000_000 + ims * 1_000_000 + ius * 1_000 + ins;
     kani::assume(total.abs() < VK_LIMIT_NS);
     kani::cover!(true);
     let norm = NormalizedTimeDuration::from_time_duration(&t);
@@ -79,18 +98,17 @@ fn fb_as_date_value() {
     }
 }
 
-/// checked_add: integral a, b with |a + b| <= 2^53 -> exact integral sum
+/// checked_add: integral a, b with |a|, |b|, |a + b| <= 2^53 -> the exact sum (no rounding, no error)
 #[kani::proof]
 fn fb_checked_add() {
-    let a = vk_f();
-    let b = vk_f();
-    kani::assume(a.0.abs() <= 9_007_199_254_740_992.0 && b.0.abs() <= 9_007_199_254_740_992.0);
-    let (ia, ib) = (a.0 as i128, b.0 as i128);
-    kani::assume((ia + ib).abs() <= 9_007_199_254_740_992);
+    let ia: i64 = kani::any();
+    let ib: i64 = kani::any();
+    kani::assume(ia.abs() <= 9_007_199_254_740_992 && ib.abs() <= 9_007_199_254_740_992 && (ia + ib).abs() <= 9_007_199_254_740_992);
+    let a = FiniteF64(ia as f64);
+    let b = FiniteF64(ib as f64);
     let r = a.checked_add(&b);
     assert!(r.is_ok());
-    let v = r.unwrap().0;
-    assert!(v == v.trunc() && (v as i128) == ia + ib);
+    assert!(r.unwrap().0 == (ia + ib) as f64);
 }
 
 /// negate / abs / is_zero on integral values
